@@ -62,6 +62,13 @@ def impl_eval(case):
                 config.config['MAX_VBS_RECORD_LENGTH'] = case['maxedit']
         try:
             info = mciipm.ipm_info(io.BytesIO(data))
+            # a result is the caller's own: ANOTHER input inspected afterwards (one with the opposite verdict: a 23-byte
+            # stub, or a small well-formed file) does not change what was said about this one
+            if info.get('isValidIPM'):
+                mciipm.ipm_info(io.BytesIO(b'\x00' * 23))
+            else:
+                ok = b'1240' + (0xC000000000000000 << 64).to_bytes(16, 'big') + b'16' + b'5' * 16
+                mciipm.ipm_info(io.BytesIO(struct.pack('>I', len(ok)) + ok + b'\x00' * 4))
         except Exception as ex:  # noqa
             return {'obs': 'escape:' + type(ex).__name__, 'violation': f'ipm_info raised {type(ex).__name__}'}
     finally:
